@@ -33,7 +33,15 @@ def nml():
 
 
 BUILD = ["ctor"]      # how construct() creates components: the constructors, or one of the public factory paths
-BUILD_MODES = ("ctor", "utils-factory-str", "utils-factory-class", "class-factory", "parent-add")
+BUILD_MODES = ("ctor", "utils-factory-str", "utils-factory-class", "class-factory", "parent-add", "shared-objects")
+
+
+_SHARED = {"active": False, "memo": {}}
+
+
+def canon_tree(t):
+    return [t["cls"], sorted([n, (v if not is_comp(v) else [canon_tree(x) for x in (v["l"] if "l" in v else [v["o"]])])]
+                             for n, v in t["kw"] if v is not None)]
 
 
 def is_comp(v):
@@ -51,6 +59,19 @@ def construct(tree):
     default groups by design)"""
     mode = BUILD[0]
     cls = getattr(nml(), tree["cls"])
+    if mode == "shared-objects":
+        # equal subtrees are ONE python object held at several positions (a DAG): same values, same XML
+        top = not _SHARED["active"]
+        if top:
+            _SHARED["active"], _SHARED["memo"] = True, {}
+        try:
+            key = json.dumps(canon_tree(tree))
+            if key not in _SHARED["memo"]:
+                _SHARED["memo"][key] = cls(**{name: conv(v) for name, v in tree["kw"]})
+            return _SHARED["memo"][key]
+        finally:
+            if top:
+                _SHARED["active"] = False
     if mode == "ctor" or tree["cls"] == "Cell":
         kw = {}
         for name, v in tree["kw"]:
